@@ -209,11 +209,15 @@ CaseRes(c) ==
   ELSE SumTrees(c, 1, [NoRes EXCEPT !.fails = IF RoundTripOK(c) THEN {} ELSE {CaseFail(c, "RoundTrip")}])
 
 -----------------------------------------------------------------------------
+\* Constant-level on purpose: TLC evaluates (and caches) it once, with LET-sharing; the same
+\* expression under a state variable is re-evaluated without sharing and is orders of magnitude slower.
+Results == [k \in 1..Len(Cases) |-> CaseRes(Cases[k])]
+
 Init == i = 0 /\ bad = 0 /\ nodes = 0 /\ envs = 0 /\ tightNodes = 0
 
 Step ==
   /\ i < Len(Cases)
-  /\ LET r == CaseRes(Cases[i + 1])
+  /\ LET r == Results[i + 1]
      IN  /\ \A f \in r.fails : PrintT(ToJson(f))
          /\ bad' = bad + Cardinality(r.fails)
          /\ nodes' = nodes + r.n
